@@ -17,7 +17,8 @@ Why(rec) ==
                   \o [i \in 1..Len(rec.structs) |-> StructWhy(fs, rec.structs[i])]
                   \o [i \in 1..Len(rec.unions) |-> UnionWhy(fs, rec.unions[i])]
                   \o [i \in 1..Len(rec.enums) |-> EnumWhy(fs, rec.enums[i])]
-                  \o [i \in 1..Len(rec.structs) |-> NullWhy(fs, rec.structs[i])])
+                  \o [i \in 1..Len(rec.structs) |-> NullWhy(fs, rec.structs[i])]
+                  \o [i \in 1..Len(rec.structs) |-> KeyWhy(fs, rec.structs[i])])
 
 TraceInit == l = 1 /\ TLCSet(1, <<>>)
 Consume == /\ l <= Len(Trace)
